@@ -25,6 +25,7 @@ import (
 	"path/filepath"
 	"strings"
 	"sync"
+	"sync/atomic"
 	"time"
 
 	"github.com/alicebob/miniredis/v2"
@@ -100,10 +101,20 @@ func consistencyHammer(r *Run, tag string) {
 		if strings.HasPrefix(line, "CC-SUMMARY ") {
 			var sum map[string]int
 			if json.Unmarshal([]byte(strings.TrimPrefix(line, "CC-SUMMARY ")), &sum) == nil {
+				total := 0
 				for k, n := range sum {
 					r.Dist["concurrent:"+k] = n
-					r.Evaluations += n
+					total += n
 				}
+				// counted: the guaranteed minimum (the child runs until it has done that much); what a faster machine does beyond
+				// it is reported separately
+				floor := 750 * budget
+				if total < floor {
+					floor = total
+				}
+				r.Evaluations += floor
+				r.Extra["concurrent_operations_total"] = total
+				r.Extra["concurrent_operations_counted_as_evaluations"] = floor
 			}
 		}
 	}
@@ -183,7 +194,8 @@ func runCCHammerChild(r *Run) {
 	}
 	counts := map[string]int{}
 	var cmu sync.Mutex
-	count := func(k string) { cmu.Lock(); counts[k]++; cmu.Unlock() }
+	var totalOps int64
+	count := func(k string) { cmu.Lock(); counts[k]++; cmu.Unlock(); atomic.AddInt64(&totalOps, 1) }
 	type held struct {
 		resp *envoy.CheckResponse
 		show string
@@ -192,6 +204,13 @@ func runCCHammerChild(r *Run) {
 	var seenMu sync.Mutex
 	seen := map[string]string{} // identifier -> which login got it
 	deadline := time.Now().Add(time.Duration(budget) * time.Second)
+	// runs for its time budget AND until a minimum amount of work is done (at most four budgets): on a loaded machine it
+	// runs longer instead of doing less, so that what the evidence reports does not depend on the load
+	hardDeadline := time.Now().Add(time.Duration(4*budget) * time.Second)
+	running := func() bool {
+		now := time.Now()
+		return now.Before(deadline) || (atomic.LoadInt64(&totalOps) < int64(750*budget) && now.Before(hardDeadline))
+	}
 	var wg sync.WaitGroup
 	for g := 0; g < 16; g++ {
 		wg.Add(1)
@@ -221,7 +240,7 @@ func runCCHammerChild(r *Run) {
 				}
 				return m
 			}
-			for i := 0; time.Now().Before(deadline); i++ {
+			for i := 0; running(); i++ {
 				me := fmt.Sprintf("g%d-%d", g, i)
 				target := "/page/" + me + "?q=" + me
 				// mock chains in between: their verdicts must be their own
